@@ -141,8 +141,15 @@ fn gen_pdu(t: &mut Tape) -> WirePdu {
         }
         5 => WirePdu::CacheReset { v },
         6 => {
-            let plen = t.choose(40) as usize;
-            let tlen = t.choose(40) as usize;
+            let size = |t: &mut Tape| -> usize {
+                if t.chance(1, 8) {
+                    *t.pick(&[255usize, 256, 257, 1023, 1024, 1025, 4096, 65535, 65536])
+                } else {
+                    t.choose(40) as usize
+                }
+            };
+            let plen = size(t);
+            let tlen = size(t);
             WirePdu::Error {
                 v,
                 code: t.choose(12) as u16,
